@@ -18,6 +18,30 @@ func init() {
 	gens["c04-product"] = c04Product
 	gens["c04-errors"] = c04Errors
 	gens["c04-bodybytes"] = c04BodyBytes
+	gens["c04-long"] = c04Long
+}
+
+// c04Long: long bodies and long type-name / number parts (limits such as the kernel's 8970
+// byte record size live far above the boundary product).
+func c04Long(c *enumx.Ctx) {
+	for _, n := range []int{10, 100, 1000, 4095, 4096, 4097, 8900, 8969, 8970, 8971, 9000, 16384, 65535, 65536, 70000, 1 << 20} {
+		for _, f := range []string{"a=b ", "x", " ", "msg=audit(1.002:3): ", "\"", ")"} {
+			for _, t := range []uint16{1300, 1112, 65535} {
+				if !c.Mine() {
+					continue
+				}
+				body := " k=v " + strings.Repeat(f, (n+len(f)-1)/len(f))[:n] + "end"
+				checkSuccess(c, header{auparse.AuditMessageType(t).String(), t, "1700000000", "123", "42", body})
+			}
+		}
+	}
+	// leading zeros make the numeric parts long without changing their value
+	for _, z := range []int{1, 8, 9, 10, 11, 19, 20, 40, 200} {
+		if !c.Mine() {
+			continue
+		}
+		checkSuccess(c, header{"SYSCALL", 1300, strings.Repeat("0", z) + "1700000000", "123", strings.Repeat("0", z) + "42", " a=b"})
+	}
 }
 
 // c04BodyBytes: every byte value (and every pair of "interesting" bytes) inside the
